@@ -101,6 +101,9 @@ class ValidRange(Adapter):
         if case["kind"] == "float":
             inp = core.to_float_array(xs)
             span = (None if lo is None else float(lo), None if hi is None else float(hi))
+            if case.get("infinite"):
+                # "unbounded" written as an infinite bound instead of a missing one
+                span = (float("-inf") if lo is None else span[0], float("inf") if hi is None else span[1])
         else:  # datetime64: values are whole seconds since the epoch
             inp = np.array([np.datetime64("NaT") if x is None else np.datetime64(int(x), "s") for x in xs],
                            dtype="datetime64[ns]")
@@ -140,19 +143,26 @@ def gen_valid(tier, rng):
                 for xs in ser:
                     cases.append({"kind": kind, "xs": frs(xs), "lo": core.fr(lo), "hi": core.fr(hi),
                                   "si": si, "ei": ei})
+                    if kind == "float" and (lo is None or hi is None) and len(xs) in (1, 3):
+                        cases.append(dict(cases[-1], infinite=True))
     return cases
 
 
 # ------------------------------------------------------------------ qartod_compare
 
-def _vec(cells):
+def _vec(cells, dtype="uint8"):
+    """cell: int | ["m", backing int] (masked) | ["f", "p/q"] (a fractional float: not a flag)"""
     import numpy as np
 
-    data = [c if isinstance(c, int) else c[1] for c in cells]
-    mask = [not isinstance(c, int) for c in cells]
+    def val(c):
+        if isinstance(c, int):
+            return c
+        return float(F(c[1])) if c[0] == "f" else c[1]
+    data = [val(c) for c in cells]
+    mask = [isinstance(c, list) and c[0] == "m" for c in cells]
     if any(mask):
-        return np.ma.array(np.array(data, dtype="uint8"), mask=mask)
-    return np.array(data, dtype="uint8")
+        return np.ma.array(np.array(data, dtype=dtype), mask=mask)
+    return np.array(data, dtype=dtype)
 
 
 class Compare(Adapter):
@@ -163,11 +173,14 @@ class Compare(Adapter):
     def impl(self, case):
         from ioos_qc import qartod
 
-        return core.call_impl(qartod.qartod_compare, {"vectors": [_vec(v) for v in case["vs"]]})
+        dts = case.get("dtypes") or ["uint8"] * len(case["vs"])
+        return core.call_impl(qartod.qartod_compare, {"vectors": [_vec(v, dt) for v, dt in zip(case["vs"], dts)]})
 
     def model(self, case):
         def cell(c):
-            return f"Some {z(c)}" if isinstance(c, int) else "None"
+            if isinstance(c, int):
+                return f"Some {z(c)}"
+            return "None" if c[0] == "m" else "Some 1000003%Z"        # a fractional value: some code that is not a flag
         vs = clist([clist([cell(c) for c in v]) for v in case["vs"]])
         return f"(compare_model priorities {vs})"
 
@@ -197,6 +210,17 @@ def gen_compare(tier, rng):
     for _ in range(150 if tier == "quick" else 1500):
         k, n = rng.randint(1, 6), rng.randint(0, 12)
         cases.append({"vs": [[rng.choice(CELLS) for _ in range(n)] for _ in range(k)]})
+    # flag vectors read back from a DataFrame or a file: wider integer / float dtypes, holding values that are NOT
+    # flags (fill values -32767 / -2147483647, codes above 255, fractional numbers) and must be ignored as such
+    wide = {"int16": [1, 2, 3, 4, 9, 0, -32767, 260, 265, -255, ["m", 4]],
+            "int32": [1, 3, 4, 9, -2147483647, 65537, 260, 513, ["m", 1]],
+            "int64": [1, 2, 4, 9, 260, 2 ** 32 + 4, -252, ["m", 3]],
+            "float64": [1, 2, 3, 4, 9, ["f", "3/2"], ["f", "9/2"], ["f", "7/2"], 260, -247, ["m", 4]]}
+    for _ in range(200 if tier == "quick" else 2000):
+        k, n = rng.randint(1, 4), rng.randint(1, 8)
+        dts = [rng.choice(["uint8", "int16", "int32", "int64", "float64"]) for _ in range(k)]
+        vs = [[rng.choice(wide[dt]) if dt != "uint8" else rng.choice(CELLS) for _ in range(n)] for dt in dts]
+        cases.append({"vs": vs, "dtypes": dts})
     # outside the domain: unequal lengths
     cases.append({"vs": [[1, 2], [1]]})
     return cases
